@@ -9336,6 +9336,15 @@ class SVG(Group):
                     s.render(ppi=ppi, width=width, height=height)
                     clip += 1
                 elif SVG_TAG_USE == tag:
+                    # x and y become a translate: resolve units and percentages against this viewport first.
+                    for attr, relative in (
+                        (SVG_ATTR_X, width),
+                        (SVG_ATTR_Y, height),
+                    ):
+                        if attr in values:
+                            values[attr] = Length(values[attr]).value(
+                                ppi=ppi, relative_length=relative
+                            )
                     s = Use(values)
                     if SVG_ATTR_TRANSFORM in s.values:
                         # Update value in case x or y applied.
